@@ -41,7 +41,7 @@ EXPLANATION = (
     "inside numpy)."
 )
 # obligations added during the build phase (seeding rounds, twins, mutation analysis)
-ADDED_IN_BUILD = ' Also: NONEMPTY covers the candidate sets of the dynamic programmes (C02.b / C03.c BELLMAN candidates re-run: the newest admissible start is always among them, so argmin / argmax never see an empty set for max_segment_length == min_segment_length).'
+ADDED_IN_BUILD = ' Also: NONEMPTY covers the candidate sets of the dynamic programmes (C02.b / C03.c BELLMAN candidates re-run: the newest admissible start is always among them, so argmin / argmax never see an empty set for max_segment_length == min_segment_length). Violations of the seeded / circular drivers\' other rules are not repeated under C14 (only NONEMPTY and undecided obligations are shared).'
 EXPLANATION = EXPLANATION + ADDED_IN_BUILD
 
 ASSUMPTIONS = [
@@ -418,11 +418,13 @@ def check_nonempty(ctx):
     cands = find_driver_call(ctx, pred)
     if len(cands) == 1:
         gen, sel = c07.discover_helpers(ctx, cands[0][1])
-        if gen is not None:
+        if gen is not None and sel is None:
+            ctx.undecided("C14.d NONEMPTY", "seeded-splits", cands[0][1].loc(), "the greedy selector called by the seeded driver was not identified")
+        if gen is not None and sel is not None:
             ctx.guard("C14.d NONEMPTY", gen.qualname, lambda: c07.check_generator(ctx, gen, "C14"), gen.loc())
             before = len(ctx.obs)
             ctx.guard("C14.d NONEMPTY", "seeded-splits", lambda: c07.check_driver_c07(ctx, cands[0][1], gen, sel), cands[0][1].loc())
-            ctx.obs[before:] = [o for o in ctx.obs[before:] if "NONEMPTY" in o.rule or o.status != "HOLDS"]
+            ctx.obs[before:] = [o for o in ctx.obs[before:] if "NONEMPTY" in o.rule or o.status == "UNDECIDED"]  # violations of the drivers' other rules belong to C07 / C09
     cls = ctx.P.public_class(AD, "CircularBinarySegmentation")
     pred = ctx.P.lookup_method(cls, "_predict")
     cands = find_driver_call(ctx, pred)
@@ -433,7 +435,7 @@ def check_nonempty(ctx):
         if gen is not None and sel is not None and inner is not None:
             before = len(ctx.obs)
             ctx.guard("C14.d NONEMPTY", "circular-candidates", lambda: c09.check_driver_c09(ctx, drv, gen, sel, inner), drv.loc())
-            ctx.obs[before:] = [o for o in ctx.obs[before:] if "NONEMPTY" in o.rule or o.status != "HOLDS"]
+            ctx.obs[before:] = [o for o in ctx.obs[before:] if "NONEMPTY" in o.rule or o.status == "UNDECIDED"]  # violations of the drivers' other rules belong to C07 / C09
     # moving window: at least one scored position for n >= 2b, b >= 1
     mw = ctx.P.public_class(CD, "MovingWindow")
     ts = ctx.P.lookup_method(mw, "_transform_scores")
